@@ -275,11 +275,13 @@ func (t *TypeSpec) GoStruct() reflect.Type {
 		return t.goType
 	}
 
-	fields := []reflect.StructField{{
+	idField := reflect.StructField{
 		Name: "ID",
 		Type: reflect.TypeOf(""),
 		Tag:  reflect.StructTag(fmt.Sprintf(`json:"id" api:%s`, strconv.Quote(t.Name))),
-	}}
+	}
+
+	var fields []reflect.StructField
 
 	for i, a := range t.Attrs {
 		fields = append(fields, reflect.StructField{
@@ -307,6 +309,14 @@ func (t *TypeSpec) GoStruct() reflect.Type {
 		})
 	}
 
+	// nothing requires the ID to be the first field of a struct: its position
+	// depends on the type's name
+	pos := int(core.HashString(t.Name) % uint64(len(fields)+1))
+	if core.HashString(t.Name)%3 == 0 {
+		pos = 0
+	}
+
+	fields = append(fields[:pos:pos], append([]reflect.StructField{idField}, fields[pos:]...)...)
 	t.goType = reflect.StructOf(fields)
 
 	return t.goType
